@@ -7,7 +7,7 @@ import anytree
 from anytree import AnyNode, LightNodeMixin, LoopError, Node, NodeMixin, SymlinkNode, TreeError
 
 from oracle import forest as F
-from oracle.forest import NON, NONITER
+from oracle.forest import NON, NONE, NONITER
 from vlib.driver import nontrivial
 from vlib.nondet import concrete_region, nondet_bool, nondet_int
 
@@ -114,7 +114,7 @@ class L(_Hooks, LightNodeMixin):
 
 
 class _AllEqual(object):
-    """value semantics a user class may have: every instance compares equal"""
+    """value/container semantics a user class may have: every instance compares equal, is empty and falsy"""
 
     __slots__ = ()
 
@@ -126,6 +126,12 @@ class _AllEqual(object):
 
     def __hash__(self):
         return 7
+
+    def __len__(self):
+        return 0
+
+    def __bool__(self):
+        return False
 
 
 class ME(_AllEqual, _Hooks, NodeMixin):
@@ -210,8 +216,8 @@ def pick_op(cfg, n, family):
         return ("children", a, NONITER)
     xs = []
     for j in range(ln):
-        x = nondet_int(0, n if allow_non else n - 1, "x%d" % j)
-        xs.append(NON if x == n else x)
+        x = nondet_int(0, n + 1 if allow_non else n - 1, "x%d" % j)
+        xs.append(NON if x == n else (NONE if x == n + 1 else x))
     return ("children", a, tuple(xs))
 
 
@@ -245,7 +251,7 @@ def do_call(nodes, op, as_iter=None):
             if xs == NONITER:
                 a.children = 5
             else:
-                seq = [non if x == NON else nodes[x] for x in xs]
+                seq = [non if x == NON else (None if x == NONE else nodes[x]) for x in xs]
                 a.children = seq if as_iter is None else as_iter(seq)
     except (Exception, AssertionError) as exc:
         return exc
@@ -491,9 +497,9 @@ def c18_body(cfg):
     parent, children = model_from_pv(pv)
     op = pick_op(dict(cfg, non_node=False), n, "light")
     with concrete_region():
-        for touched, plan, nodes_a, exc_a, log_a, _ in variants("mixin", pv, op, cfg):
+        for touched, plan, nodes_a, exc_a, log_a, _ in variants(cfg.get("mixcls", "mixin"), pv, op, cfg):
             plan_b = FaultPlan(cfg, replay=list(plan.answers))
-            nodes_b, exc_b, log_b, _ = run_real("light", pv, touched, op, plan_b)
+            nodes_b, exc_b, log_b, _ = run_real(cfg.get("lightcls", "light"), pv, touched, op, plan_b)
             if log_a:
                 nontrivial()
             if classify(exc_a) != classify(exc_b):
